@@ -999,7 +999,7 @@ pub fn run(args: &Args, out: &mut Out) {
     }
     let repo = std::env::var("VERIF_REPO").unwrap_or_else(|_| "/repo".into());
     let mut rng = Rng::new(args.seed);
-    let scale = args.n.unwrap_or(if args.thorough() { 40 } else { 1 });
+    let scale = args.n.unwrap_or(if args.thorough() { 12 } else { 1 });
 
     // ---- model-diff side streams
     for _ in 0..(300 * scale.min(10)) {
